@@ -89,20 +89,24 @@ NumPool == CASE Scope \in {"small", "mid"} -> {1, 2, 3}
 \* small scopes tie the number to the name (fewer symmetric copies); order of declaration stays free
 Tied == Scope \in {"small", "mid"}
 TiedNumber(nm) == CASE nm = <<W("name", "Name")>> -> 2 [] nm = <<W("class", "Class")>> -> 1 [] OTHER -> 3
-ScalarPool == CASE Scope = "small" -> {"int32", "string"}
+ScalarPool == CASE Scope = "small" -> {"int32", "bool"}
                 [] Scope = "mid" -> {"int32", "string", "bool", "double", "bytes", "sint64"}
                 [] OTHER -> Scalars
 KeyPool == CASE Scope = "small" -> {"string"}
              [] Scope = "mid" -> {"string", "bool", "int64"}
              [] OTHER -> LegalKeys
 GroupPool == IF Scope = "small" THEN {"choice"} ELSE {"choice", "type"}
-ValPool == IF Scope \in {"small"} THEN {0, 1} ELSE IF Scope = "trace" THEN 0..8 ELSE {0, 1, 2}
-KeyValPool == IF Scope \in {"small"} THEN {0, 1} ELSE IF Scope = "trace" THEN 0..8 ELSE {0, 1, 2}
+ValPool == IF Scope \in {"small", "mid"} THEN {0, 1} ELSE IF Scope = "trace" THEN 0..8 ELSE {0, 1, 2}
+KeyValPool == IF Scope \in {"small", "mid"} THEN {0, 1} ELSE IF Scope = "trace" THEN 0..8 ELSE {0, 1, 2}
 MaxRep == IF Scope = "trace" THEN 8 ELSE 2
-MaxDepth == IF Scope \in {"small"} THEN 2 ELSE 4
 
-Contexts == { [depth |-> d, file |-> f, kids |-> k] :
-              d \in 1..MaxDepth, f \in (IF Scope = "small" THEN {"b"} ELSE {"a", "b"}), k \in BOOLEAN }
+Contexts == CASE Scope = "one" ->
+                 { [depth |-> 1, file |-> "a", kids |-> FALSE], [depth |-> 1, file |-> "b", kids |-> TRUE],
+                   [depth |-> 2, file |-> "b", kids |-> TRUE], [depth |-> 3, file |-> "a", kids |-> FALSE],
+                   [depth |-> 4, file |-> "b", kids |-> TRUE] }
+              [] Scope = "small" -> { [depth |-> 2, file |-> "b", kids |-> FALSE] }
+              [] Scope = "mid" -> { [depth |-> 3, file |-> "b", kids |-> TRUE] }
+              [] OTHER -> { [depth |-> d, file |-> f, kids |-> k] : d \in 1..4, f \in {"a", "b"}, k \in BOOLEAN }
 \* reference targets (tokens; the harness maps them to the full names of the concrete API):
 \*   self     the subject itself                     peer     later top-level message that refers back (mutual recursion)
 \*   before   earlier top-level message, same file   after    later top-level message, same file (forward reference)
@@ -112,15 +116,15 @@ Contexts == { [depth |-> d, file |-> f, kids |-> k] :
 \*                                                            same simple name as the (nested) subject
 \*   xfile / xnested   top-level / nested message of the other file of the package (file b imports file a)
 \*   dep / depnested   top-level / nested message of a dependency package;  wkt  google.protobuf.Duration
-MsgTargets(c) == (IF Scope = "small" THEN {"self", "before"} ELSE {"self", "peer", "before", "after", "cousin", "dep", "depnested", "wkt"})
+MsgTargets(c) == (IF Scope = "small" THEN {"self"} ELSE {"self", "peer", "before", "after", "cousin", "dep", "depnested", "wkt"})
                  \cup (IF c.kids THEN {"kid"} ELSE {})
-                 \cup (IF c.depth >= 2 THEN {"parent", "sibling"} ELSE {})
+                 \cup (IF c.depth >= 2 /\ Scope # "small" THEN {"parent", "sibling"} ELSE {})
                  \cup (IF c.depth >= 2 /\ Scope # "small" THEN {"shadow"} ELSE {})
                  \cup (IF c.depth >= 3 THEN {"root"} ELSE {})
                  \cup (IF c.file = "b" /\ Scope # "small" THEN {"xfile", "xnested"} ELSE {})
 EnumTargets(c) == (IF Scope = "small" THEN {"etop"} ELSE {"etop", "ecousin", "edep", "edepnested"})
                  \cup (IF c.kids THEN {"ekid"} ELSE {})
-                 \cup (IF c.depth >= 2 THEN {"esibling"} ELSE {})
+                 \cup (IF c.depth >= 2 /\ Scope # "small" THEN {"esibling"} ELSE {})
                  \cup (IF c.depth >= 2 /\ Scope # "small" THEN {"eshadow"} ELSE {})
                  \cup (IF c.file = "b" /\ Scope # "small" THEN {"exfile", "exnested"} ELSE {})
 TypeChoices(c) == { [kind |-> k, ref |-> ""] : k \in ScalarPool }
@@ -224,7 +228,7 @@ ValsOf(f) == IF f.kind = "bool" THEN ValPool \cap {0, 1} ELSE ValPool
 KeysOf(f) == IF f.key = "bool" THEN KeyValPool \cap {0, 1} ELSE KeyValPool
 OpChoices ==
   { [op |-> "set", f |-> i, k |-> 0, x |-> x] : i \in {ii \in 1..Len(fields) : Singular(fields[ii])}, x \in ValPool }
-  \cup { [op |-> "clear", f |-> i, k |-> 0, x |-> 0] : i \in 1..Len(fields) }
+  \cup { [op |-> "clear", f |-> i, k |-> 0, x |-> 0] : i \in (IF Scope = "small" THEN {} ELSE 1..Len(fields)) }
   \cup { [op |-> "append", f |-> i, k |-> 0, x |-> x] : i \in {ii \in 1..Len(fields) : fields[ii].card = "repeated"}, x \in ValPool }
   \cup { [op |-> "put", f |-> i, k |-> k, x |-> x] : i \in {ii \in 1..Len(fields) : fields[ii].card = "map"}, k \in KeyValPool, x \in ValPool }
 LegalOp(o) == /\ o \in OpChoices
@@ -253,6 +257,7 @@ BeginField(nm, num) ==
   /\ subject = "message" /\ phase = "build" /\ pstage = 0 /\ Len(fields) < MaxFields
   /\ \A i \in 1..Len(fields) : /\ Snake(fields[i].name) # Snake(nm) /\ LowerCamel(fields[i].name) # LowerCamel(nm)
                                /\ fields[i].number # num /\ fields[i].group # Snake(nm)
+  /\ Scope = "small" => \A i \in 1..Len(fields) : fields[i].number < num     \* small scope: declared in number order
   /\ pend' = [Blank EXCEPT !.name = nm, !.number = num] /\ pstage' = 1
   /\ UNCHANGED <<fields, phase>> /\ UNCH_side /\ UNCH_vals
 TypeField(t) ==
@@ -310,7 +315,10 @@ GenerateModule ==
   /\ manifest' = GenManifest(tops) /\ phase' = "done"
   /\ UNCHANGED <<subject, ctx, sh, fields, pend, pstage, evals, genum, tops>> /\ UNCH_vals
 
-SlotChoices == IF Tied THEN { <<nm, TiedNumber(nm)>> : nm \in NamePool } ELSE NamePool \X NumPool
+SlotChoices == CASE Tied -> { <<nm, TiedNumber(nm)>> : nm \in NamePool }
+                 [] Scope = "one" -> { <<<<W("class", "Class")>>, 1>>, <<<<W("page", "Page"), W("size", "Size")>>, 16>>,
+                                       <<<<W("display", "Display"), W("name", "Name")>>, 536870911>> }
+                 [] OTHER -> NamePool \X NumPool
 Next == \/ \E s \in SlotChoices : BeginField(s[1], s[2])
         \/ \E t \in TypeChoices(ctx) : TypeField(t)
         \/ \E p \in PlaceChoices : PlaceField(p)
